@@ -96,6 +96,9 @@ def run(run: Run):
     for i in bad:
         name, rp = meta[i]
         run.violation(f"generator bytes differ from the documented derivation ({name})", rp)
+    # (4a) party indices beyond one byte (a 512-party parameter set)
+    from lib import gens_hi
+    gens_hi.check_high_parties(run, quick, "c11hi")
     # (4b) every way of walking the public generator accessors hands out the same points as a plain collect(): positioned access (nth, skip,
     # step_by, by_ref + take, last, count) on fresh and on partially consumed iterators, across party boundaries
     shapes = [(1, 4), (2, 2), (4, 2), (4, 4), (8, 2), (64, 2), (16, 8)] if quick else [(b, c) for b in (1, 2, 4, 8, 16, 32, 64) for c in (1, 2, 4, 8, 16, 32)]
